@@ -138,7 +138,11 @@ pub fn run(ctx: &Ctx) {
     enumerate(ctx, "huge-windows", &huge[..nh], false, |c, o| dirs.with(|d| judge(d, c, o)));
     // on the wire the window bound is the *acknowledged* windowsize: downloads from the real tftpd with windows of up to
     // 65535 blocks / several MB, every burst counted by a model client with an enlarged receive buffer (shared with C09)
-    explore_n(ctx, "wire-window-bound", ctx.tier.pick(32, 600), shards(), 12, super::c09::big_strategy, |c: &super::c09::Case, o| dirs.with(|d| super::c09::judge(d, c, o)));
+    let grid = super::c09::big_grid();
+    enumerate(ctx, "wire-window-bound", &grid, false, |c, o| dirs.with(|d| super::c09::judge(d, c, o)));
+    if ctx.tier == Tier::Thorough {
+        explore_n(ctx, "wire-window-bound-random", 600, shards(), 12, super::c09::big_strategy, |c: &super::c09::Case, o| dirs.with(|d| super::c09::judge(d, c, o)));
+    }
 }
 
 pub fn replay(ctx: &Ctx, part: &str, case: &Value) -> bool {
